@@ -164,6 +164,13 @@ def _exec_items(items):
                 detached = True
                 obs.append({'class': 'detach', 'hash': ''})
                 continue
+            if s['op'] == 'readd':
+                try:
+                    db.add(o)           # a member: refused (the project: replaced by itself); a detached element: attached again
+                except Exception:
+                    pass
+                obs.append({'class': 'readd', 'hash': ''})
+                continue
             try:
                 text = getattr(o, s['out'])
                 cls = 'custom' if text.startswith('TAG') else ('empty' if text == '' else 'default')
@@ -328,7 +335,7 @@ def main(argv: List[str]) -> int:
            ['render %s.%s -> %s' % (k, 'dbml', c) for k in ('ref', 'group', 'sticky', 'project', 'column') for c in ('default', 'empty')] + \
            ['render db.%s -> %s' % (o, c) for o in ('sql', 'dbml') for c in ('default', 'custom')] + ['route ' + x for x in ROUTES]
     never = [k for k in want if not seen.get(k)]
-    if never or not any(k.startswith('detach') for k in seen):
+    if never or not any(k.startswith('detach') for k in seen) or not any(k.startswith('readd project') for k in seen):
         raise core.Machinery('C16: never observed: %s' % never)
     rep.notes['sessions'] = len(ds)
     rep.samples.append({'seed': ds[0][0], 'session': ds[0][1]['sess'], 'observed': out[1][1]['obs']})
